@@ -7,7 +7,7 @@ import random
 from vt.refsem import BINARY_ONLY, CONST, NARY, Net, UNARY
 
 SHAPES = ['random', 'chain', 'wide', 'diamond', 'unary', 'dups', 'consts', 'nary']
-LABEL_STYLES = ['plain', 'digits', 'keyword', 'at', 'brackets', 'mixed']
+LABEL_STYLES = ['plain', 'digits', 'keyword', 'at', 'brackets', 'mixed', 'derived']
 
 ALL_GATE_TYPES = NARY + BINARY_ONLY + UNARY + CONST
 SUPPORTED_MIN = ['NOT', 'AND', 'OR', 'XOR', 'NAND', 'NOR', 'NXOR', 'GT', 'LT', 'GEQ', 'LEQ']
@@ -33,6 +33,9 @@ def make_labels(rng, style, n_in, n_g):
         return l
 
     for i in range(n_in):
+        if style == 'derived':
+            ins.append(fresh('p%d' % i))
+            continue
         if style == 'plain':
             ins.append(fresh('x%d' % i))
         elif style == 'digits':
@@ -44,6 +47,12 @@ def make_labels(rng, style, n_in, n_g):
         else:
             ins.append(fresh('x[%d]' % i if rng.random() < 0.5 else 'x.%d' % i))
     for i in range(n_g):
+        if style == 'derived':
+            # labels built from other labels the way helper names are usually generated: <label>_<k>, <label>@..., not_<label>
+            base = rng.choice(ins + gs) if (ins + gs) and rng.random() < 0.7 else 'p%d' % i
+            form = rng.choice(['%s_%d', '%s_%d', 'not_%s', '%s@%d', 'new_%s', '%s.%d'])
+            gs.append(fresh(form % ((base, rng.choice([2, 3, 8, 9, 10, 12, 16])) if form.count('%') == 2 else (base,))))
+            continue
         if style == 'plain':
             gs.append(fresh('g%d' % i))
         elif style == 'digits':
@@ -59,7 +68,8 @@ def make_labels(rng, style, n_in, n_g):
 
 def rand_net(rng: random.Random, *, n_in=None, n_g=None, shape=None, types=None, max_arity=4, label_style='plain',
              n_out=None, allow_input_outputs=True, allow_repeat_outputs=True, p_repeat_operand=None,
-             const_operands=True, min_in=1, max_in=5, max_g=12) -> Net:
+             const_operands=True, min_in=1, max_in=5, max_g=12, p_wide=0.0,
+             wide_choices=(8, 9, 10, 11, 12)) -> Net:
     shape = shape or rng.choice(SHAPES)
     n_in = n_in if n_in is not None else rng.randint(min_in, max_in)
     n_g = n_g if n_g is not None else rng.randint(0 if rng.random() < 0.05 else 1, max_g)
@@ -127,6 +137,8 @@ def rand_net(rng: random.Random, *, n_in=None, n_g=None, shape=None, types=None,
             ops = (a, b)
         else:
             k = rng.randint(2, max_arity) if rng.random() < (0.6 if shape == 'nary' else 0.25) else 2
+            if p_wide and rng.random() < p_wide:
+                k = rng.choice(list(wide_choices))   # sizes beyond the usual small-test range
             ops = []
             for _ in range(k):
                 if ops and rng.random() < p_repeat_operand:
@@ -160,7 +172,7 @@ def gate_type_by_name():
     return {t: getattr(gate, t) for t in ['INPUT'] + ALL_GATE_TYPES}
 
 
-def build(net: Net, *, rng=None, shuffle_storage=False, cls=None):
+def build(net: Net, *, rng=None, shuffle_storage=False, cls=None, exotic=True):
     """Build a real cirbo Circuit from a reference netlist through public calls
     (emplace_gate in definition order, set_outputs).  shuffle_storage: move a
     random subset of gates to the end of the gate map by renaming twice, giving a
@@ -184,7 +196,26 @@ def build(net: Net, *, rng=None, shuffle_storage=False, cls=None):
             c.rename_gate(tmp, lbl)
         if list(c.inputs) != list(net.inputs):
             c.set_inputs(list(net.inputs))
+    if exotic and rng is not None:
+        # the same circuit as an object that went through deepcopy / pickle (as minimize_subcircuits or a
+        # multiprocessing hand-over produce): gate-type objects are then equal to, but not identical with,
+        # the module constants
+        r = rng.random()
+        if r < 0.12:
+            import copy as _copy
+            c = _copy.deepcopy(c)
+            CLONES['deepcopy'] = CLONES.get('deepcopy', 0) + 1
+        elif r < 0.2:
+            import pickle as _pickle
+            try:
+                c = _pickle.loads(_pickle.dumps(c))
+                CLONES['pickle'] = CLONES.get('pickle', 0) + 1
+            except Exception:
+                pass
     return c
+
+
+CLONES = {}
 
 
 def twin(net: Net, rng: random.Random, *, dup_outputs=True) -> tuple:
@@ -354,3 +385,27 @@ def random_edits(c, rng: random.Random, k=None, allow_into_bench=True, allow_int
         except Exception as e:  # an edit that the library refuses is simply not part of the history
             done.append([kind, 'refused:' + type(e).__name__])
     return done
+
+
+def scribble(c, rng: random.Random):
+    """What an owner does with an object the library handed over: edit it in place through the
+    public API (rename its inputs, add inputs and gates, change outputs).  Later library calls must
+    not be affected, and other objects (arguments, earlier results) must not change."""
+    from cirbo.core.circuit import gate as G
+    try:
+        for i, l in enumerate(list(c.inputs)):
+            if rng.random() < 0.7 and not c.has_gate('own_%d_%s' % (i, l)):
+                c.rename_gate(l, 'own_%d_%s' % (i, l))
+        k = rng.randrange(10 ** 6)
+        if not c.has_gate('own_in_%d' % k):
+            c.add_inputs(['own_in_%d' % k])
+        labels = list(c.gates)
+        if labels and not c.has_gate('own_g_%d' % k):
+            c.emplace_gate('own_g_%d' % k, G.NOT, (rng.choice(labels),))
+            outs = list(c.outputs)
+            rng.shuffle(outs)
+            c.set_outputs(outs[: max(0, len(outs) - 1)] + ['own_g_%d' % k])
+        if c.inputs:
+            c.set_inputs(list(reversed(c.inputs)))
+    except Exception:
+        pass
